@@ -1,3 +1,63 @@
 package main
 
-func genC17Schemas(e *emitter, tier string) {}
+import (
+	"fmt"
+	"strings"
+
+	"sigs.k8s.io/structured-merge-diff/v6/typed"
+)
+
+// schema equality: two parses of one document are equal; a single-point edit makes them
+// differ exactly when the structures differ (decided by the model's structural equality)
+func genC17Schemas(e *emitter, tier string) {
+	docs := []string{kitchenYAML, smallYAML, deducedYAML}
+	edits := [][2]string{
+		{"elementRelationship: associative", "elementRelationship: atomic"},
+		{"elementRelationship: atomic", "elementRelationship: associative"},
+		{"elementRelationship: atomic", "elementRelationship: separable"},
+		{"scalar: numeric", "scalar: string"},
+		{"scalar: untyped", "scalar: numeric"},
+		{"namedType: sub", "namedType: item"},
+		{"- name: xx", "- name: xy"},
+		{"          - name\n", "          - vv\n"},
+		{"      default: \"TCP\"", "      default: \"UDP\""},
+		{"      default: \"TCP\"", ""},
+		{"namedType: __untyped_atomic_", "namedType: __untyped_deduced_"},
+	}
+	n := 40
+	if tier == "thorough" {
+		n = 600
+	}
+	emit := func(a, b string) {
+		pa, err1 := typed.NewParser(typed.YAMLObject(a))
+		pb, err2 := typed.NewParser(typed.YAMLObject(b))
+		if err1 != nil || err2 != nil {
+			return
+		}
+		eq := pa.Schema.Equals(&pb.Schema) && pb.Schema.Equals(&pa.Schema)
+		e.line(fmt.Sprintf("(c17.schemaeq %s %s %s)", sexpSchema(&pa.Schema), sexpSchema(&pb.Schema), sexpBool(eq)))
+	}
+	for _, d := range docs {
+		emit(d, d)
+	}
+	for i := 0; i < n; i++ {
+		d := docs[e.rng.Intn(len(docs))]
+		ed := edits[e.rng.Intn(len(edits))]
+		cnt := strings.Count(d, ed[0])
+		if cnt == 0 {
+			continue
+		}
+		// replace the k-th occurrence only
+		k := e.rng.Intn(cnt)
+		idx := -1
+		pos := 0
+		for j := 0; j <= k; j++ {
+			off := strings.Index(d[pos:], ed[0])
+			idx = pos + off
+			pos = idx + len(ed[0])
+		}
+		d2 := d[:idx] + ed[1] + d[idx+len(ed[0]):]
+		emit(d, d2)
+		emit(d2, d2)
+	}
+}
